@@ -804,6 +804,12 @@ fn cause(field: &str, missing: bool, item: &str, rules: &[&Rule], effs: &[Eff], 
     if field == "script" && rules.iter().zip(effs).any(|(r, e)| r.body == BLANKET && (e.minus_unhide || e.minus_neg)) {
         return "blanket-script-exception-ignored".into();
     }
+    let near = closest(&|_, l| !l.neg);
+    if let Some(reason) = near {
+        if !reason.contains("unrelated") {
+            return format!("not-covered.{}.{}", reason, ps);
+        }
+    }
     for (i, _) in &with_body {
         let e = &effs[*i];
         if e.generic {
@@ -815,7 +821,7 @@ fn cause(field: &str, missing: bool, item: &str, rules: &[&Rule], effs: &[Eff], 
             }
         }
     }
-    if let Some(reason) = closest(&|_, l| !l.neg) {
+    if let Some(reason) = near {
         return format!("not-covered.{}.{}", reason, ps);
     }
     "returned-without-covering-rule".into()
